@@ -217,6 +217,39 @@ def splitNum (mk : α → ATm α) (t : ATm α) : ATm α :=
 def sumSimplify (mk : α → ATm α) (l r : ATm α) : Bool :=
   splitNum mk l = r || splitNum mk l = splitNum mk r
 
+/-- `strip_times_full` -/
+def stripTimesFull : ATm α → List (ATm α)
+  | .mul a b => stripTimesFull a ++ stripTimesFull b
+  | t => [t]
+
+/-- the product of the values of numerals (`functools.reduce(operator.mul, …)`, exact arithmetic) -/
+def prodVals : List (ATm α) → α
+  | [] => ((1 : Nat) : α)
+  | x :: xs => numVal x * prodVals xs
+
+def isMul : ATm α → Bool
+  | .mul _ _ => true
+  | _ => false
+
+/-- the three cases of verit_prod_simplify once the product is on the left -/
+def prodCases (l r : ATm α) : Bool :=
+  let lp := stripTimesFull l
+  if lp.all isNumber && isNumber r && prodVals lp = numVal r then true        -- case 1 (`hol_eval(lhs) == hol_eval(rhs)`)
+  else if r = .lit 0 && lp.any (fun p => p = .lit 0) then true                -- case 2
+  else
+    let rp := stripTimesFull r
+    match lp.filter isNumber with
+    | [] => false                                                            -- `assert len(lhs_consts) > 0`
+    | c :: cs =>
+      prodVals (c :: cs) = prodVals (rp.filter isNumber) &&
+      lp.filter (fun x => !isNumber x) = rp.filter (fun x => !isNumber x)
+
+/-- verit_prod_simplify: at least one side is a product; a product on the right only is swapped to the left -/
+def prodSimplify (l r : ATm α) : Bool :=
+  if !isMul l && !isMul r then false
+  else if !isMul l then prodCases r l
+  else prodCases l r
+
 end generic
 
 /-- `Int(c)`: `zero`, `one`, `of_nat …`, `uminus` of the numeral of `-c` -/
